@@ -174,3 +174,13 @@ claim('C14',
       'beyond these inputs outside; two recorded findings (azoxy-type canonical forms are not fixed points of standardize).',
       'symbolic execution of the real writer / reader / normalisers with z3-decided input orders (minisym)',
       'DESIGN.md §4 C14')
+claim('C20',
+      'RDKit is called concretely; what the solver explores is every atom / neighbour order the random-order writer can hand '
+      'to the bridge (random() symbolic): for every spelling of the seeds, to_rdkit gives the molecule RDKit parses from the same '
+      'text (RDKit canonical SMILES, atom maps stripped; atom numbers travel as maps), from_rdkit(to_rdkit(m)) is m with '
+      'numbers, elements, isotopes, charges, radicals preserved, and from_rdkit of the RDKit-parsed text is the chython-parsed '
+      'text; aromatic and Kekule form.',
+      'Lowest level of the claimed set: order nondeterminism only; seeds restricted to what both toolkits accept (carbon '
+      'stereocentres, stereo double bonds); coordinates and allenes not covered.',
+      'symbolic execution of the real writer/reader/bridge with z3-decided spelling orders (minisym); RDKit as concrete oracle',
+      'DESIGN.md §4 C20')
